@@ -957,3 +957,230 @@ func ruleOpenSkipped(rule string) func(*Ctx) {
 		}
 	}
 }
+
+// ruleHorzJoinOwner: C04.owner — when a horizontal join splits one ring into two in tree mode, the new ring's
+// owner follows containment: inside the old ring -> the old ring; old inside new -> rings swapped, then owner =
+// the (new) outer; neither -> sibling of the old ring.
+func ruleHorzJoinOwner(rule string) func(*Ctx) {
+	return func(c *Ctx) {
+		f := c.fn("(clipperBase).processHorzJoins")
+		loops := naturalLoops(f)
+		if len(loops) != 1 {
+			fatalf("processHorzJoins: expected one loop")
+		}
+		ll := loops[0]
+		recv := f.Params[0].Name()
+		type caseT struct {
+			name       string
+			aInB, bInA absVal
+			want       string
+			swap       bool
+		}
+		newRec := "(clipperBase).newOutRec(" + recv + ")"
+		cases := []caseT{
+			{"old ring inside the new ring", boolVal(true), boolVal(false), "outer", true},
+			{"new ring inside the old ring", boolVal(false), boolVal(true), "old", false},
+			{"neither contains the other", boolVal(false), boolVal(false), "old.owner", false},
+		}
+		for _, cs := range cases {
+			ex := &explorer{c: c, f: f, atoms: map[string]absVal{recv + ".usingPolyTree": boolVal(true)},
+				atomFn: func(e string) (absVal, bool) {
+					if strings.HasPrefix(e, "path1InsidePath2(") {
+						// first call tests old-in-new (or1.pts, or2.pts); second new-in-old
+						if strings.Contains(e, "(getRealOutRec") || true {
+							a := strings.Index(e, "getRealOutRec")
+							b := strings.Index(e, newRec)
+							if a >= 0 && b >= 0 && a < b {
+								return cs.aInB, true
+							}
+							return cs.bInA, true
+						}
+					}
+					return absVal{}, false
+				}, stop: func(b *ssa.BasicBlock) bool { return !ll.blocks[b] }, maxPaths: 2000}
+			outs := ex.explore(ll.header)
+			bad := ""
+			n := 0
+			for _, p := range outs {
+				if p.end != "loop" {
+					continue
+				}
+				// only the self-join branch: a new record was created
+				if !p.called("(clipperBase).newOutRec") {
+					continue
+				}
+				n++
+				owner := ""
+				swapped := false
+				for _, s := range p.stores {
+					if s.addr == newRec+".owner" {
+						owner = s.val.expr
+					}
+					if s.addr == newRec+".pts" && strings.Contains(s.val.expr, "getRealOutRec") && strings.HasSuffix(s.val.expr, ".pts") {
+						swapped = true
+					}
+				}
+				isOld := strings.HasPrefix(owner, "getRealOutRec(") && !strings.HasSuffix(owner, ".owner")
+				isOldOwner := strings.HasPrefix(owner, "getRealOutRec(") && strings.HasSuffix(owner, ".owner")
+				switch cs.want {
+				case "outer", "old":
+					if !isOld {
+						bad = fmt.Sprintf("%s: the new ring's owner becomes %s, want the other ring of the pair", cs.name, owner)
+					}
+				case "old.owner":
+					if !isOldOwner {
+						bad = fmt.Sprintf("%s: the new ring's owner becomes %s, want the old ring's owner (they are siblings)", cs.name, owner)
+					}
+				}
+				if swapped != cs.swap && bad == "" {
+					bad = fmt.Sprintf("%s: point lists swapped=%v, want %v", cs.name, swapped, cs.swap)
+				}
+			}
+			if n == 0 && bad == "" {
+				bad = "no self-join path found"
+			}
+			c.check(bad == "", rule, fmt.Sprintf("%s:processHorzJoins:%s", rule, strings.ReplaceAll(cs.name, " ", "-")), f.Pos(), "(clipperBase).processHorzJoins",
+				cs.name+" -> owner = "+cs.want, bad,
+				"a node's polygon must lie inside its parent's: a ring split off INSIDE the old ring is its child (a hole), one beside it is its sibling; swapping the two makes a hole a top-level polygon")
+		}
+	}
+}
+
+// ruleLazyBounds: C04.bounds — OutRec.bounds is computed lazily by checkBounds; a function may read X.bounds of a
+// record other than its own parameter only after checkBounds(X) returned true on that path.
+func ruleLazyBounds(rule string) func(*Ctx) {
+	return func(c *Ctx) {
+		n := 0
+		for _, f := range c.srcFuncs() {
+			fn := c.fname(f)
+			if fn == "(clipperBase).checkBounds" {
+				continue
+			}
+			k := 0
+			for _, b := range f.Blocks {
+				for _, in := range b.Instrs {
+					fa, ok := in.(*ssa.FieldAddr)
+					if !ok || typeName(fa.X.Type()) != "*OutRec" || fieldName(fa.X.Type(), fa.Field) != "bounds" {
+						continue
+					}
+					// stores (assignment of bounds) are checkBounds' job only
+					base := fa.X
+					if _, isParam := base.(*ssa.Parameter); isParam {
+						continue
+					}
+					if _, isPhi := base.(*ssa.Phi); isPhi {
+						// a record obtained in this function (loop variable etc.)
+					}
+					k++
+					n++
+					ok2 := guardedBy(fa, true, func(v ssa.Value) bool {
+						call, ok := v.(*ssa.Call)
+						if !ok || calleeName(c, call) != "(clipperBase).checkBounds" {
+							return false
+						}
+						return sameLoadChain(call.Call.Args[1], base)
+					})
+					c.check(ok2, rule, fmt.Sprintf("%s:%s:bounds-read#%d", rule, fn, k), fa.Pos(), fn,
+						"the record's bounds are read only after checkBounds(record) returned true on this path",
+						"bounds of a record other than the function's own are read without a preceding checkBounds(record): they are computed lazily and may still be empty",
+						"an owner whose (not yet computed) bounds are empty is skipped as 'cannot contain the child': the child is attached to the wrong ancestor")
+				}
+			}
+		}
+		c.floor(rule, n, 1)
+	}
+}
+
+// sameLoadChain: two values are the same chain of field loads from the same root (no CSE in SSA).
+func sameLoadChain(a, b ssa.Value) bool {
+	if a == b {
+		return true
+	}
+	ua, ok1 := a.(*ssa.UnOp)
+	ub, ok2 := b.(*ssa.UnOp)
+	if ok1 && ok2 && ua.Op == token.MUL && ub.Op == token.MUL {
+		fa, ok1 := ua.X.(*ssa.FieldAddr)
+		fb, ok2 := ub.X.(*ssa.FieldAddr)
+		return ok1 && ok2 && fa.Field == fb.Field && sameLoadChain(fa.X, fb.X)
+	}
+	return false
+}
+
+// ruleLineExtractor: C11.extract / C11.len.
+func ruleLineExtractor(rule string) func(*Ctx) {
+	return func(c *Ctx) {
+		f := c.fn("getPathRectClipLine")
+		// every ring node is emitted: no filtering call, and the loop's append is reached on every iteration
+		var banned []string
+		for _, ci := range calls(f) {
+			n := calleeName(c, ci)
+			if n == "isCollinear" || strings.HasPrefix(n, "unlinkOp") || n == "CrossProduct" {
+				banned = append(banned, n)
+			}
+		}
+		bad := allIterationsWork(c, f)
+		if len(banned) > 0 {
+			bad = "the line extractor filters nodes with " + strings.Join(banned, ", ")
+		}
+		c.check(bad == "", rule, rule+":getPathRectClipLine:emits-every-node", f.Pos(), "getPathRectClipLine",
+			"every node of the result ring is emitted, in ring order, with no collinearity filtering", bad,
+			"the vertices of a clipped line are input vertices and crossing points in input order; dropping a 'redundant' mid-point of a line that doubles back uncovers part of it")
+		// driver: two-point paths are clipped; nothing but extractor output is appended
+		g := c.fn("(RectClipLines64).Execute")
+		loops := naturalLoops(g)
+		var outer *loopInfo
+		for _, l := range loops {
+			if outer == nil || len(l.blocks) > len(outer.blocks) {
+				outer = l
+			}
+		}
+		if outer == nil {
+			fatalf("RectClipLines64.Execute: no loop")
+		}
+		for _, ln := range []int64{1, 2} {
+			ll := outer
+			ex := &explorer{c: c, f: g, atomFn: func(e string) (absVal, bool) {
+				if strings.HasPrefix(e, "len(paths[") {
+					return intVal(ln), true
+				}
+				return absVal{}, false
+			}, stop: func(b *ssa.BasicBlock) bool { return !ll.blocks[b] }, maxPaths: 2000}
+			outs := ex.explore(outer.header)
+			bad := ""
+			ran := false
+			for _, p := range outs {
+				if p.end != "loop" {
+					continue
+				}
+				if p.called("(RectClip64).executeInternalPath64") {
+					ran = true
+				}
+				if p.called("(RectClip64).executeInternal") || p.called("(RectClip64).checkEdges") {
+					bad = "the line driver runs the polygon machine"
+				}
+			}
+			if ln == 2 && !ran && bad == "" {
+				bad = "a two-point path never reaches the line machine (it is skipped)"
+			}
+			if ln == 1 && ran {
+				bad = "a one-point path is sent to the line machine"
+			}
+			c.check(bad == "", rule, fmt.Sprintf("%s:(RectClipLines64).Execute:len=%d", rule, ln), g.Pos(), "(RectClipLines64).Execute",
+				map[int64]string{1: "one-point paths are skipped", 2: "two-point paths are clipped"}[ln], bad,
+				"a two-point segment crossing the rectangle must not be dropped")
+		}
+		// appended results come from the extractor only
+		bad = ""
+		for _, call := range appendCalls(g) {
+			for _, el := range appendedValues(call.Call.Args[1]) {
+				cl, ok := el.(*ssa.Call)
+				if !ok || cl.Call.StaticCallee() != nil {
+					bad = "a path that is not the extractor's output is appended to the result: " + el.String()
+				}
+			}
+		}
+		c.check(bad == "", rule, rule+":(RectClipLines64).Execute:results-from-extractor", g.Pos(), "(RectClipLines64).Execute",
+			"only r.getPath(op) results are appended (no 'bounds contained -> return the input' shortcut)", bad,
+			"bounds alone cannot tell whether a line lies inside; only the line machine's output is a clipped line")
+	}
+}
